@@ -1,4 +1,4 @@
-(* C13_defs.v -- definitions only (to be moved to spec/): equality of loader / instruction-set results up to
+(* CiSpec.v -- definitions only: equality of loader / instruction-set results up to
    the letter case of a culprit that is reported AS WRITTEN (an undefined name has no first spelling). *)
 From PS Require Import Base Str Sim Program Isa Loader TextSpec.
 
